@@ -7,7 +7,7 @@
 //	                            (holds the Async drainer inside a close callback). Deterministic; after every op the
 //	                            implementation is left to settle and its state is compared with the model's stable
 //	                            successor state.
-//	  O new | add | release <c> | close <c> | eof <c> | werr <c> | holdclose | relclose | stop | Q
+//	  O new | add | addfail | release <c> | close <c> | eof <c> | werr <c> | holdclose | relclose | stop | Q
 //	  R stop=<idle|run|ret> opens=<n> closes=<n> c<i>=<opening|live|closed|done>:<in table 0|1> ...
 //
 //	C <id> real kind=core|http mode=lt|et|etos pollers=<n> listeners=<n> iomod=<nb|blocking|mixed>
@@ -76,6 +76,11 @@ func genSim(g *lp.Gen, id int) {
 	for k := 0; k < nops; k++ {
 		r := g.Intn(20)
 		switch {
+		case r < 1 && !stopped:
+			// addConn whose epoll registration fails: table slot cleared again, closeWithError(err)
+			g.P("O addfail")
+			closed[n] = true
+			n++
 		case r < 5 && !stopped:
 			g.P("O add")
 			n++
@@ -204,16 +209,18 @@ type simConn struct {
 }
 
 type simCase struct {
-	e          *lp.Exec
-	g          *nbio.Engine
-	conns      []*simConn
-	mu         sync.Mutex
-	closeGate  chan struct{} // nil = open
-	opens      int32
-	closes     int32
-	stopState  int32 // 0 idle 1 running 2 returned
-	heldAtStop bool
-	npoll      int
+	e                       *lp.Exec
+	g                       *nbio.Engine
+	conns                   []*simConn
+	mu                      sync.Mutex
+	closeGate               chan struct{} // nil = open
+	opens                   int32
+	closes                  int32
+	stopState               int32 // 0 idle 1 running 2 returned
+	heldAtStop              bool
+	heldIDs                 map[int]bool // conns whose OnOpen was running when Stop was called
+	opensAtRet, closesAtRet int32
+	npoll                   int
 }
 
 func (s *simCase) state() string {
@@ -335,6 +342,13 @@ func runSim(e *lp.Exec, head string, ops []string) {
 			sc := mk(false)
 			_, _ = g.AddConn(sc.c)
 			atomic.StoreInt32(&sc.added, 1)
+		case ow[1] == "addfail":
+			// the descriptor is already registered with the epoll instance: nbio's EPOLL_CTL_ADD fails (EEXIST),
+			// addConn takes its failure path (connsUnix[fd] = nil; closeWithError(err))
+			sc := mk(false)
+			_ = vsys.EpollCtl(g.VerifEpfd(sc.fd%npoll), syscall.EPOLL_CTL_ADD, sc.fd, &syscall.EpollEvent{Fd: int32(sc.fd), Events: syscall.EPOLLIN})
+			_, _ = g.AddConn(sc.c)
+			atomic.StoreInt32(&sc.added, 1)
 		case ow[1] == "release":
 			c := atoi(ow[2])
 			if c < len(s.conns) && s.conns[c].gate != nil && atomic.CompareAndSwapInt32(&s.conns[c].gateOff, 0, 1) {
@@ -384,10 +398,16 @@ func runSim(e *lp.Exec, head string, ops []string) {
 				for _, c := range s.conns {
 					if atomic.LoadInt32(&c.opened) == 1 && atomic.LoadInt32(&c.added) == 0 {
 						s.heldAtStop = true
+						if s.heldIDs == nil {
+							s.heldIDs = map[int]bool{}
+						}
+						s.heldIDs[c.id] = true
 					}
 				}
 				go func() {
 					g.Stop()
+					// the close notifications Stop owes must have been DELIVERED (handler returned) by now
+					s.opensAtRet, s.closesAtRet = atomic.LoadInt32(&s.opens), atomic.LoadInt32(&s.closes)
 					atomic.StoreInt32(&s.stopState, 2)
 				}()
 			}
@@ -415,15 +435,25 @@ func runSim(e *lp.Exec, head string, ops []string) {
 	}
 	ss := atomic.LoadInt32(&s.stopState)
 	if ss == 1 && allOpen {
+		// the known defect leaves exactly the conns open whose OnOpen was running when Stop was called; a hang with
+		// any other conn left over is something else
 		class := "unexplained"
 		if s.heldAtStop {
 			class = "onopen-outlives-snapshot"
+			for _, c := range s.conns {
+				if atomic.LoadInt32(&c.cdone) == 0 && !s.heldIDs[c.id] {
+					class = "unexplained"
+				}
+			}
 		}
 		e.Oracle("c18-hang", "class=%s Stop has not returned with every gate open and the engine settled; %s", class, s.state())
 	}
 	if ss == 2 {
 		if o, c := atomic.LoadInt32(&s.opens), atomic.LoadInt32(&s.closes); o != c {
 			e.Oracle("c18-close-count", "Stop returned with opens=%d close notifications=%d", o, c)
+		}
+		if s.opensAtRet != s.closesAtRet {
+			e.Oracle("c18-close-count", "at the moment Stop returned: opens=%d, close notifications delivered=%d (Stop must not return before the last close handler has returned)", s.opensAtRet, s.closesAtRet)
 		}
 	}
 	shape := head[strings.Index(head, "sim"):]
@@ -487,25 +517,26 @@ func countFDs() (int, []string) {
 }
 
 type realCase struct {
-	e       *lp.Exec
-	kind    string
-	core    *nbio.Engine
-	httpE   *nbhttp.Engine
-	addrs   []string
-	opens   int32
-	closes  int32
-	dialsOK int32
-	clients []net.Conn
-	cmu     sync.Mutex
-	srv     []*nbio.Conn
-	peerEOF int32
-	sink    net.Listener
-	sinkCs  []net.Conn
-	stopSt  int32
-	g0      int
-	fd0     int
-	fdn0    []string
-	wgCli   sync.WaitGroup
+	e                       *lp.Exec
+	kind                    string
+	core                    *nbio.Engine
+	httpE                   *nbhttp.Engine
+	addrs                   []string
+	opens                   int32
+	closes                  int32
+	dialsOK                 int32
+	clients                 []net.Conn
+	cmu                     sync.Mutex
+	srv                     []*nbio.Conn
+	peerEOF                 int32
+	sink                    net.Listener
+	sinkCs                  []net.Conn
+	stopSt                  int32
+	g0                      int
+	fd0                     int
+	fdn0                    []string
+	wgCli                   sync.WaitGroup
+	opensAtRet, closesAtRet int32
 }
 
 func (r *realCase) state() string {
@@ -520,6 +551,9 @@ func (r *realCase) state() string {
 	}
 	return fmt.Sprintf("R stop=%s opens=%d closes=%d", st, o, c)
 }
+
+// the watchdog for Stop/Shutdown on real engines: generous, a hang costs this much once per case
+const watchdog = 20 * time.Second
 
 func runReal(e *lp.Exec, head string, ops []string) {
 	ws := strings.Fields(head)
@@ -564,7 +598,10 @@ func runReal(e *lp.Exec, head string, ops []string) {
 					r.srv = append(r.srv, c)
 					r.cmu.Unlock()
 				})
-				g.OnClose(func(c *nbio.Conn, err error) { atomic.AddInt32(&r.closes, 1) })
+				g.OnClose(func(c *nbio.Conn, err error) {
+					time.Sleep(200 * time.Microsecond) // a handler that takes a moment: counted when it returns
+					atomic.AddInt32(&r.closes, 1)
+				})
 				g.OnData(func(c *nbio.Conn, data []byte) { _, _ = c.Write(append([]byte(nil), data...)) })
 				if err := g.Start(); err != nil {
 					panic(err)
@@ -750,6 +787,7 @@ func runReal(e *lp.Exec, head string, ops []string) {
 				switch {
 				case ow[1] == "stop" && r.core != nil:
 					r.core.Stop()
+					r.opensAtRet, r.closesAtRet = atomic.LoadInt32(&r.opens)+atomic.LoadInt32(&r.dialsOK), atomic.LoadInt32(&r.closes)
 				case ow[1] == "stop":
 					r.httpE.Stop()
 				case r.core != nil:
@@ -775,15 +813,15 @@ func runReal(e *lp.Exec, head string, ops []string) {
 						}
 					}
 				}
-			case <-time.After(10 * time.Second):
+			case <-time.After(watchdog):
 				buf := make([]byte, 1<<16)
 				buf = buf[:runtime.Stack(buf, true)]
-				e.Oracle("c18-hang", "class=unexplained %s did not return within 10s; %s; stacks: %s", ow[1], r.state(), strings.ReplaceAll(string(buf[:min(len(buf), 6000)]), "\n", " ; "))
+				e.Oracle("c18-hang", "class=unexplained %s did not return within %v; %s; stacks: %s", ow[1], watchdog, r.state(), strings.ReplaceAll(string(buf[:min(len(buf), 6000)]), "\n", " ; "))
 			}
 			shape += "|" + ow[1]
 			if r.kind == "http" {
 				// the server side is closed: every client must see it
-				waitFor(func() bool { return int(atomic.LoadInt32(&r.peerEOF)) >= len(r.clients) }, 3*time.Second)
+				waitFor(func() bool { return int(atomic.LoadInt32(&r.peerEOF)) >= len(r.clients) }, 8*time.Second)
 			}
 		}
 		e.P("> %s%s", ln, ann)
@@ -796,8 +834,11 @@ func runReal(e *lp.Exec, head string, ops []string) {
 			if o != c {
 				e.Oracle("c18-close-count", "core engine: Stop returned with opens+dials=%d close notifications=%d", o, c)
 			}
+			if r.opensAtRet != r.closesAtRet {
+				e.Oracle("c18-close-count", "core engine: at the moment Stop returned opens+dials=%d, close notifications delivered=%d", r.opensAtRet, r.closesAtRet)
+			}
 		} else if int(atomic.LoadInt32(&r.peerEOF)) < len(r.clients) {
-			e.Oracle("c18-close-count", "http engine (iomod=%s): %d of %d client connections still open 3s after Stop returned", iomod, len(r.clients)-int(atomic.LoadInt32(&r.peerEOF)), len(r.clients))
+			e.Oracle("c18-close-count", "http engine (iomod=%s): %d of %d client connections still open 8s after Stop returned", iomod, len(r.clients)-int(atomic.LoadInt32(&r.peerEOF)), len(r.clients))
 		}
 	}
 	// release the harness's own resources, then take the census
